@@ -2,7 +2,7 @@ use c18::tree::{Carry, Case, Form, Header, Item, Node, PushVia};
 use vcore::proptest::prelude::*;
 use vcore::Level;
 
-const RULE: &str = "a case is a program as data: a span tree (<=20 span nodes, depth <=5; forms: attribute on sync/async fn, new_span! with Frame::call / enter / in_future, guard: parameter, and four own-frame hand-off forms where the frame returned by new_span! — for sampled and for unsampled (rejected) spans — is moved to a fresh thread and entered there by call / in_fn / enter, or polled through in_future alternately on fresh threads and the awaiting thread) with emit! events, Traceparent::current()/SpanCtxt::current checks and yields, plus pushed incoming headers (unparsable -> documented fallback, valid sampled/unsampled of another trace, same trace id as the active one, all-zero, half-zero; through Traceparent::push, push(traceparent, tracestate) or header text), next-service hops (format current header, parse and push it on a fresh thread, run child spans there), same-service thread hops (carrying nothing / Frame::current(rt.ctxt()) / Traceparent::current().push() / both; by call or in_future) planned panics (quiet resume_unwind) that unwind through any of these scopes up to a catch_unwind (explicit Catch item, in async code around every poll; or the top of the hop / service / hand-off thread) after which the same thread is used on; and joins of async tasks with a generated poll schedule (optionally each task wrapped in Frame::current(rt.ctxt()).in_future, and then optionally with polls migrating to fresh threads); the sampler is a generated decision table indexed by call number that records its argument, or no sampler at all is installed (TraceparentFilter::new(), the plain setup(): every locally started trace is sampled and unsampled traces only arrive through incoming headers); the filter is TraceparentFilter optionally AND in_sampled_trace_filter(b). Run on a private runtime on a fresh thread and judged against a model of the active traceparent. Non-trivial = at least two root spans whose sampler decisions differ, or a pushed incoming header, or a (thread or service) hop.";
+const RULE: &str = "a case is a program as data: a span tree (<=20 span nodes, depth <=5; forms: attribute on sync/async fn, new_span! with Frame::call / enter / in_future, guard: parameter completed with complete() or complete_with(custom completion), Result-returning ok_lvl / err_lvl / err: fns sync and async leaving by Ok, return Err or an early ?, and four own-frame hand-off forms where the frame returned by new_span! — for sampled and for unsampled (rejected) spans — is moved to a fresh thread and entered there by call / in_fn / enter, or polled through in_future alternately on fresh threads and the awaiting thread) with emit! events, Traceparent::current()/SpanCtxt::current checks and yields, plus pushed incoming headers (unparsable -> documented fallback, valid sampled/unsampled of another trace, same trace id as the active one, all-zero, half-zero; through Traceparent::push, push(traceparent, tracestate) or header text), next-service hops (format current header, parse and push it on a fresh thread, run child spans there), same-service thread hops (carrying nothing / Frame::current(rt.ctxt()) / Traceparent::current().push() / both; by call or in_future) planned panics (quiet resume_unwind) that unwind through any of these scopes up to a catch_unwind (explicit Catch item, in async code around every poll; or the top of the hop / service / hand-off thread) after which the same thread is used on; and joins of async tasks with a generated poll schedule (optionally each task wrapped in Frame::current(rt.ctxt()).in_future, and then optionally with polls migrating to fresh threads); the sampler is a generated decision table indexed by call number that records its argument, or no sampler at all is installed (TraceparentFilter::new(), the plain setup(): every locally started trace is sampled and unsampled traces only arrive through incoming headers); the filter is TraceparentFilter optionally AND in_sampled_trace_filter(b). Run on a private runtime on a fresh thread and judged against a model of the active traceparent. Non-trivial = at least two root spans whose sampler decisions differ, or a pushed incoming header, or a (thread or service) hop.";
 
 const ASSUMPTIONS: [&str; 8] = [
     "ids of sampled spans are read from their own span events; the order of sampler calls is read from the log positions of span starts (never predicted); ids inside unsampled traces are learned from the first observation inside the span and must then stay stable and be restored",
@@ -24,6 +24,15 @@ fn form() -> impl Strategy<Value = Form> {
         3 => Just(Form::AsyncFn),
         1 => Just(Form::ManualFuture),
         1 => Just(Form::GuardAsync),
+        1 => Just(Form::ResultOkLvlSync),
+        1 => Just(Form::ResultErrLvlSync),
+        1 => Just(Form::ResultErrSync),
+        1 => Just(Form::ResultOkLvlAsync),
+        1 => Just(Form::ResultErrLvlAsync),
+        1 => Just(Form::ResultErrAsync),
+        1 => Just(Form::GuardCompleteWithSync),
+        1 => Just(Form::GuardCompleteWithAsync),
+        1 => Just(Form::ManualCompleteWith),
         1 => Just(Form::HandoffCall),
         1 => Just(Form::HandoffInFn),
         1 => Just(Form::HandoffEnterBack),
@@ -164,6 +173,9 @@ fn main() {
         s.require("roots-with-differing-decisions", 200);
         s.require("next-service-with-spans", 100);
         s.require("thread-hop-carried", 100);
+        s.require("form:result-span-in-unsampled-trace", 200);
+        s.require("form:complete_with-in-unsampled-trace", 200);
+        s.require("form:result-span-continuing-unsampled-header", 100);
         s.require("exit:panic-sync-call", 200);
         s.require("exit:panic-incoming-frame", 100);
         s.require("exit:panic-async", 100);
